@@ -120,7 +120,7 @@ def iter_genbank(f, exclude=()):
             meta._genbank = attrs
             if 'accession' in meta._genbank:
                 meta.id = meta._genbank.accession.split()[0]
-                for ft in meta.fts:
+                for ft in meta.get('fts', ()):
                     ft.meta.seqid = meta.id
             try:
                 del meta._genbank.reference  # references could be parsed in a list, not implemented
@@ -178,6 +178,9 @@ def iter_genbank(f, exclude=()):
             # if 'fts' in exclude and 'seq' in exclude:
             #     continue
             if 'fts' in exclude:
+                # skip the feature table, but still find the sequence
+                if line[:20].strip().lower().startswith('origin'):
+                    parse = 'origin'
                 continue
             if len(line[:20].strip()) > 0:
                 if fttype is not None:
